@@ -40,6 +40,16 @@ func actionSSA(p *core.Program, c cliCommand) *ssa.Function {
 		}
 	}
 	visit(mainFn)
+	if found == nil {
+		// commands built by constructor functions: the action closure lives in another function of package main
+		if mp := p.SSAPkg(""); mp != nil {
+			for _, m := range mp.Members {
+				if f, ok := m.(*ssa.Function); ok && f != mainFn {
+					visit(f)
+				}
+			}
+		}
+	}
 	return found
 }
 
